@@ -155,6 +155,31 @@ def o_cancelled_clean(w):
         out.append(('future_sync-ran-after-drop:op%d' % k, And(Ne(dropped, NONE_T), Ne(w.ghost.get('start%d' % k, NONE_T), NONE_T), Ult(dropped, w.ghost.get('start%d' % k, NONE_T)))))
     return out
 
+def o_memory(w):
+    """no access to the protected value or to job storage after it was released; the value is dropped exactly once"""
+    out = [(n, g) for n, g in w.m.violations if n.startswith(('use-after', 'double-free', 'value-dropped-twice'))]
+    for name, cid in getattr(w, 'canaries', {}).items():
+        de = w.ghost.get('dropend%d' % cid, NONE_T); n = w.ghost.get('ndrop%d' % cid, ZERO)
+        out.append(('value-not-dropped-once-after-drop-returned:canary%d' % cid, And(Ne(de, NONE_T), Ne(n, ONE))))
+    return out
+
+def o_drop_waits(w):
+    """Desync::drop returns only after every operation scheduled before it has finished, and frees the value after them"""
+    out = []
+    for name, cid in getattr(w, 'canaries', {}).items():
+        db = w.ghost.get('dropbegin%d' % cid, NONE_T); de = w.ghost.get('dropend%d' % cid, NONE_T); fa = w.ghost.get('freed_at%d' % cid, NONE_T)
+        for op in w.ops.values():
+            if op['obj'] != 10 + cid: continue
+            k = op['opid']
+            ret = w.ghost.get('ret%d' % k, NONE_T); end = w.ghost.get('end%d' % k, NONE_T)
+            sched_before = And(Ne(ret, NONE_T), Ne(db, NONE_T), Ule(ret, db))
+            accepted = TRUE
+            if op['kind'] == 'try_sync':
+                res = w.ghost.get('res%d' % k); accepted = Eq(res.disc, ZERO) if isinstance(res, En) else FALSE
+            out.append(('drop-returned-before-op-finished:op%d' % k, And(sched_before, accepted, Ne(de, NONE_T), Or(Eq(end, NONE_T), Ult(de, end)))))
+            out.append(('value-freed-before-op-finished:op%d' % k, And(sched_before, accepted, Ne(fa, NONE_T), Or(Eq(end, NONE_T), Ult(fa, end)))))
+    return out
+
 def o_independent(w):
     """with the gates never opened, whenever no thread can move every un-gated operation has completed"""
     out = []
@@ -164,5 +189,5 @@ def o_independent(w):
         out.append(('blocked-by-other-object:op%d' % op['opid'], And(w.norun, Ne(n, ONE))))
     return out
 
-ORACLES = {'independent': o_independent, 'fut_results': o_fut_results, 'suspend': o_suspend, 'cancelled_clean': o_cancelled_clean, 'overlap': o_overlap, 'ran_twice': o_ran_twice, 'pool_max': o_pool_max, 'deadlock': o_deadlock, 'panic': o_panic,
+ORACLES = {'independent': o_independent, 'memory': o_memory, 'drop_waits': o_drop_waits, 'fut_results': o_fut_results, 'suspend': o_suspend, 'cancelled_clean': o_cancelled_clean, 'overlap': o_overlap, 'ran_twice': o_ran_twice, 'pool_max': o_pool_max, 'deadlock': o_deadlock, 'panic': o_panic,
            'quiescent_complete': o_quiescent_complete, 'results': o_results, 'order': o_order, 'final_try_sync': o_final_try_sync}
